@@ -330,30 +330,39 @@ print("done", got)
 """
 
 
-def pyppmd_small_max_length_crashes(chain, stream, block, chunk) -> bool:
-    """True when pyppmd's decoder, driven directly and alone in a fresh process, dies from a signal when it is
-    given the whole packed stream at once and then asked for `chunk` bytes per call (what py7zr's read loop
-    does under an extraction chunk limit of a few bytes). Classification only."""
+def pyppmd_decoder_crashes_alone(chain, stream, block, chunk) -> bool:
+    """True when pyppmd's decoder, driven directly and alone in a fresh process, dies from a signal on the
+    stream pyppmd's own encoder makes of these members (fed as py7zr's read loop feeds it: the packed stream,
+    then empty input -- or the padding zero byte when the decoder asks for input -- until the output is
+    complete, at most `chunk` bytes per call). Classification only."""
     import signal
     import subprocess
     import sys
     import tempfile
 
     pp = [c for c in chain if c["f"] == "PPMD"]
-    if not pp or not chunk or any(c["f"] in G.BCJ for c in chain):
+    if not pp:
         return False
+    import bcj
     import pyppmd
 
     members = [stream] if isinstance(stream, (bytes, bytearray)) else list(stream)
     block = block or (1 << 20)
     order, size = ppmd_params(pp[0])
+    front = [c["f"] for c in chain if c["f"] in G.BCJ]
+    enc_cls = {"X86": bcj.BCJEncoder, "ARM": bcj.ARMEncoder, "ARMTHUMB": bcj.ARMTEncoder, "POWERPC": bcj.PPCEncoder, "SPARC": bcj.SparcEncoder}
+    be = enc_cls[front[0]]() if front and front[0] in enc_cls else None
     e = pyppmd.Ppmd7Encoder(order, size)
     packed = bytearray()
     for m in members:
         for i in range(0, len(m), block):
-            packed += e.encode(m[i : i + block])
+            piece = m[i : i + block]
+            packed += e.encode(be.encode(piece) if be else piece)
+    if be:
+        packed += e.encode(be.flush())
     packed += e.flush()
     n = sum(len(m) for m in members)
+    chunk = chunk or n
     with tempfile.NamedTemporaryFile(prefix="vf-ppmd-", suffix=".bin") as f:
         f.write(packed)
         f.flush()
